@@ -290,7 +290,7 @@ def check_literal(case, K):
 
 def run_shard(ctx):
     K = ctx.scale(oracle.K_QUICK, 100)
-    hyp_search(ctx, cases(), lambda c: check_case(c, ctx.stats, K), ctx.scale(28, 2500))
+    hyp_search(ctx, cases(), lambda c: check_case(c, ctx.stats, K), ctx.scale(28, 600))
 
 
 def replay(case):
